@@ -320,8 +320,16 @@ def run_check(prop, mod, tier, seed):
             failing.append((i, v))
 
     if getattr(mod, "HANG_IS_VIOLATION", None):
-        for i, (o, v) in enumerate(results):
-            if isinstance(o, dict) and "hangs" in str(o.get("adapter_error", "")):
+        hung = [i for i, (o, v) in enumerate(results) if isinstance(o, dict) and "hangs" in str(o.get("adapter_error", ""))]
+        # the model is asked whether the session finishes (cases whose implementation run failed were left out of the correspondence stage above)
+        ask = [i for i in hung if model_obs[i] is None and driver_ok and mod.model_case(cases[i]) is not None][:200]
+        if ask:
+            try:
+                for i, r in zip(ask, run_model([mod.model_case(cases[i]) for i in ask])): model_obs[i] = r
+            except (DriverError, Infra):
+                pass
+        for i in hung:
+            if True:
                 m = model_obs[i]
                 finishes = (m is None and mod.model_case(cases[i]) is None) or (isinstance(m, dict) and (m.get("outcome") or ["?"])[0] not in ("fuel", "livelock"))
                 if finishes:
